@@ -373,6 +373,7 @@ pub fn fault_catalogue() -> Vec<(&'static str, fn(u32) -> Fault)> {
         ("read-eio-0", |k| Fault::ReadErr { proc: k, nth: 0, errno: 5 }),
         ("read-eio-1", |k| Fault::ReadErr { proc: k, nth: 1, errno: 5 }),
         ("wait-echild", |k| Fault::Wait { proc: k, errno: 10 }),
+        ("state-dir-enospc", |_| Fault::Fs { site: "exec:state-dir".into(), nth: 0, errno: 28 }),
     ]
 }
 
